@@ -13,7 +13,9 @@ import (
 	"sort"
 	"strconv"
 	"strings"
+	"sync"
 	"time"
+	"unsafe"
 )
 
 var (
@@ -129,7 +131,7 @@ func verifRaceTrack(on bool) {}
 // capacity, unexported fields included). The engine replaces it by a constant: there the frozen-
 // memory monitor decides; natively the digest before/after confirms a reported write.
 func verifDeepDigest(roots ...interface{}) string {
-	var sb strings.Builder
+	sb := &strings.Builder{}
 	seen := map[uintptr]bool{}
 	var walk func(v reflect.Value, depth int)
 	walk = func(v reflect.Value, depth int) {
@@ -158,6 +160,31 @@ func verifDeepDigest(roots ...interface{}) string {
 			sb.WriteString(v.Elem().Type().String() + ":")
 			walk(v.Elem(), depth+1)
 		case reflect.Struct:
+			if pp := v.Type().PkgPath(); pp != "" && !strings.HasPrefix(pp, "github.com/robfig/soy") {
+				if v.Type() == reflect.TypeOf(sync.Map{}) && v.CanAddr() {
+					// content of a sync.Map (a cache): entries in key order
+					var ents []string
+					(*sync.Map)(unsafe.Pointer(v.UnsafeAddr())).Range(func(k, val interface{}) bool {
+						save := sb
+						sb = &strings.Builder{}
+						walk(reflect.ValueOf(k), depth+1)
+						sb.WriteString("=>")
+						walk(reflect.ValueOf(val), depth+1)
+						ents = append(ents, sb.String())
+						sb = save
+						return true
+					})
+					sort.Strings(ents)
+					sb.WriteString("syncmap{" + strings.Join(ents, ",") + "}")
+					return
+				}
+				switch pp {
+				case "sync", "sync/atomic", "os", "log", "regexp", "regexp/syntax", "text/template", "text/template/parse", "time", "reflect":
+					// synchronisation words, handles and immutable compiled objects: no template state
+					sb.WriteString("<" + v.Type().String() + ">")
+					return
+				}
+			}
 			sb.WriteString("{")
 			for i := 0; i < v.NumField(); i++ {
 				walk(v.Field(i), depth+1)
